@@ -89,6 +89,13 @@ def carry(repo, rep):
                 return True
         return False
 
+    lost = []
+
+    def carries(stmts, j):
+        n = fields[j]
+        return any(isinstance(s, ast.AugAssign) and isinstance(s.target, ast.Name) and s.target.id == n and isinstance(s.op, ast.Add)
+                   and isinstance(s.value, ast.Constant) and float(s.value.value) == 1.0 for s in stmts)
+
     def walk(stmts, state):
         state = dict(state)
         for s in stmts:
@@ -121,6 +128,8 @@ def carry(repo, rep):
                 if i is not None and resets(s.body, i):
                     st_true[i] = "ok"
                     st_false[i] = "ok"       # the test failed: the field is below its maximum
+                    if i > 0 and not carries(s.body, i - 1):
+                        lost.append((fields[i], fields[i - 1]))
                 t1 = all(isinstance(x, (ast.Return, ast.Raise)) for x in s.body[-1:]) and bool(s.body)
                 t2 = all(isinstance(x, (ast.Return, ast.Raise)) for x in s.orelse[-1:]) and bool(s.orelse)
                 if t1 and t2:
@@ -141,12 +150,14 @@ def carry(repo, rep):
 
     walk(body_without_docstring(fn), {0: "ok", 1: "ok", 2: "ok"})
     rep.floor("formatting returns in dms_str", nret[0], 6)
+    for lo, hi in sorted(set(lost)):
+        rep.violation("R-CARRY", site, "carry-lost:" + lo, "field `%s` is reset at its maximum without carrying 1 into `%s` (the value printed loses a unit)" % (lo, hi))
     if problems:
         fs = sorted({(f, mx) for _, f, mx in problems})
         for f, mx in fs:
             rep.violation("R-CARRY", site, "may-print-max:" + f,
                           "field `%s` may still equal %g when it is formatted: after rounding / a carry it is not tested and reset on every path" % (f, mx))
-    else:
+    elif not lost:
         rep.ok("R-CARRY", site, "seconds -> minutes -> degrees: each field that may reach 60/60/360 is tested and reset before all %d formatting returns" % nret[0])
 
 
